@@ -216,9 +216,10 @@ theorem sync_lock_free (M : Sync.Mutex) (i : Nat) (hn : M.recursive = false) (ho
     M.lock i .unit = ({ M with owner := some i, depth := 1 }, some .unit) := by
   simp [Sync.Mutex.lock, Sync.Mutex.lockAsync, Sync.Mutex.waitFor, hn, ho]
 
-theorem sync_lock_busy (M : Sync.Mutex) (i x : Nat) (hn : M.recursive = false) (ho : M.owner = some x) (hx : x ≠ i) :
+/-- busy mutex — whoever the owner is, the caller included (`wait_for` tests `granted_`): queued, registered, not answered -/
+theorem sync_lock_busy (M : Sync.Mutex) (i x : Nat) (hn : M.recursive = false) (ho : M.owner = some x) :
     M.lock i .unit = ({ M with queue := M.queue ++ [{ issuer := i, waited := true, res := .unit }] }, none) := by
-  simp [Sync.Mutex.lock, Sync.Mutex.lockAsync, Sync.Mutex.waitFor, hn, ho, hx, markLast_append]
+  simp [Sync.Mutex.lock, Sync.Mutex.lockAsync, Sync.Mutex.waitFor, hn, ho, markLast_append]
 
 theorem sync_step_lock (w : Sync.World) (i m : Nat) :
     w.step (.lock i m) = .ok ({ w with mutexes := Sync.upd w.mutexes m ((w.mutexes m).lock i .unit).1 },
@@ -377,7 +378,7 @@ theorem lock_sound {o : OState} {i m : Nat} {a : Actor} (hR : R o) (hI : Inv o) 
         exact LInv_finish h1 ha2 hpid hops
     | some x =>
       have hxi : x ≠ i := fun e => hnr (by rw [hown, e])
-      rw [sync_lock_busy _ i x hnrec hown hxi] at h
+      rw [sync_lock_busy _ i x hnrec hown] at h
       simp only [Sync.optOut, wakeAll, pathOf, List.foldl, List.map, upd_same, Option.some.injEq, Prod.mk.injEq] at h
       obtain ⟨rfl, rfl⟩ := h
       have hs2 : setPend (setM o.s m (absM { o.w.mutexes m with
